@@ -56,3 +56,187 @@ Example C16_three_levels :
          (Some kd, TNull); (None, TString); (Some kb, TBoolean) ]
   /\ ast_size (ast_of None None w) = 7.
 Proof. vm_compute. repeat split. Qed.
+
+(* ------------------------------------------------------------------------------------------------
+   Property C16 on the model of the Go loader itself (SchemaScan/Loader.v, checked against the library
+   by differential tests): on a JSON text — a value tree of any depth, width and layout — the loaded
+   tree and the AST are the mirror image of the text; a repeated key is refused at its second
+   occurrence; the rules of a node are reported as written, in the order written.
+   FINDING: the schema scanner refuses an exponent part in a number (load "1e5" = LError 301 1), hence the
+   hypothesis [no_exponent]. *)
+From Coq Require Import NArith.
+From JS Require Json.Grammar Json.GrammarProofs SchemaScan.SchemaScanner SchemaScan.Loader SchemaScan.SchemaProofs
+                SchemaScan.LoaderProofs.
+
+Theorem C16_load_mirrors_plain_json : forall w1 v w2,
+  Json.Grammar.all_blank w1 = true -> Json.Grammar.wf v = true -> Json.Grammar.all_blank w2 = true ->
+  SchemaProofs.plain (w1 ++ Json.Grammar.render v ++ w2) = true ->
+  LoaderProofs.no_exponent v = true ->
+  LoaderProofs.distinct_keys v = true ->
+  Loader.load (w1 ++ Json.Grammar.render v ++ w2) = Loader.LTree (Some (LoaderProofs.mirror v)).
+Proof. exact LoaderProofs.load_mirrors_plain_json. Qed.
+Print Assumptions C16_load_mirrors_plain_json.
+
+(* the same without the condition on '/', '#', '@' *)
+Theorem C16_load_mirrors_json : forall w1 v w2,
+  Json.Grammar.all_blank w1 = true -> Json.Grammar.wf v = true -> Json.Grammar.all_blank w2 = true ->
+  LoaderProofs.no_exponent v = true ->
+  LoaderProofs.distinct_keys v = true ->
+  Loader.load (w1 ++ Json.Grammar.render v ++ w2) = Loader.LTree (Some (LoaderProofs.mirror v)).
+Proof. exact LoaderProofs.load_mirrors_json. Qed.
+Print Assumptions C16_load_mirrors_json.
+
+(* the events the schema scanner delivers on such a text, offsets included *)
+Theorem C16_scan_plain_json : forall w1 v w2,
+  Json.Grammar.all_blank w1 = true -> Json.Grammar.wf v = true -> Json.Grammar.all_blank w2 = true ->
+  LoaderProofs.no_exponent v = true ->
+  SchemaScanner.scan false (w1 ++ Json.Grammar.render v ++ w2) =
+  (LoaderProofs.text_events w1 v w2, SchemaScanner.Done).
+Proof. exact LoaderProofs.scan_plain_json. Qed.
+Print Assumptions C16_scan_plain_json.
+
+Theorem C16_ast_mirrors_plain_json : forall w1 v w2,
+  Json.Grammar.all_blank w1 = true -> Json.Grammar.wf v = true -> Json.Grammar.all_blank w2 = true ->
+  SchemaProofs.plain (w1 ++ Json.Grammar.render v ++ w2) = true ->
+  LoaderProofs.no_exponent v = true ->
+  LoaderProofs.distinct_keys v = true ->
+  Loader.finish Loader.to_ast (Loader.load_state Loader.env0 (w1 ++ Json.Grammar.render v ++ w2)) =
+  (Some (Some (LoaderProofs.ast_mirror [] v)), Loader.LTree None).
+Proof. exact LoaderProofs.ast_mirrors_plain_json. Qed.
+Print Assumptions C16_ast_mirrors_plain_json.
+
+Theorem C16_loader_model_plain_json : forall w1 v w2,
+  Json.Grammar.all_blank w1 = true -> Json.Grammar.wf v = true -> Json.Grammar.all_blank w2 = true ->
+  SchemaProofs.plain (w1 ++ Json.Grammar.render v ++ w2) = true ->
+  LoaderProofs.no_exponent v = true ->
+  LoaderProofs.distinct_keys v = true ->
+  Loader.loader_model Loader.env0 (w1 ++ Json.Grammar.render v ++ w2) =
+  [x41; colon] ++ Loader.print_ast (LoaderProofs.ast_mirror [] v).
+Proof. exact LoaderProofs.loader_model_plain_json. Qed.
+Print Assumptions C16_loader_model_plain_json.
+
+Theorem C16_ast_node_count_plain_json : forall w1 v w2 a,
+  Json.Grammar.all_blank w1 = true -> Json.Grammar.wf v = true -> Json.Grammar.all_blank w2 = true ->
+  SchemaProofs.plain (w1 ++ Json.Grammar.render v ++ w2) = true ->
+  LoaderProofs.no_exponent v = true ->
+  LoaderProofs.distinct_keys v = true ->
+  fst (Loader.finish Loader.to_ast (Loader.load_state Loader.env0 (w1 ++ Json.Grammar.render v ++ w2))) = Some (Some a) ->
+  LoaderProofs.ast_size a = LoaderProofs.count_values v.
+Proof. exact LoaderProofs.ast_node_count_plain_json. Qed.
+Print Assumptions C16_ast_node_count_plain_json.
+
+Theorem C16_ast_preorder_plain_json : forall w1 v w2 a,
+  Json.Grammar.all_blank w1 = true -> Json.Grammar.wf v = true -> Json.Grammar.all_blank w2 = true ->
+  SchemaProofs.plain (w1 ++ Json.Grammar.render v ++ w2) = true ->
+  LoaderProofs.no_exponent v = true ->
+  LoaderProofs.distinct_keys v = true ->
+  fst (Loader.finish Loader.to_ast (Loader.load_state Loader.env0 (w1 ++ Json.Grammar.render v ++ w2))) = Some (Some a) ->
+  LoaderProofs.ast_preorder a = LoaderProofs.jv_preorder [] v.
+Proof. exact LoaderProofs.ast_preorder_plain_json. Qed.
+Print Assumptions C16_ast_preorder_plain_json.
+
+(* the first key, in source order, that repeats an earlier key of its own object is refused (402) at
+   its opening quote; [dup_pos] computes that offset over the value tree *)
+Theorem C16_duplicate_key_refused : forall w1 v w2 d,
+  Json.Grammar.all_blank w1 = true -> Json.Grammar.wf v = true -> Json.Grammar.all_blank w2 = true ->
+  LoaderProofs.no_exponent v = true ->
+  LoaderProofs.dup_pos (LoaderProofs.len w1) v = Some d ->
+  Loader.load (w1 ++ Json.Grammar.render v ++ w2) = Loader.LError 402%N d.
+Proof. exact LoaderProofs.duplicate_key_refused_json. Qed.
+Print Assumptions C16_duplicate_key_refused.
+
+(* the same, spelled out for the top-level object: member j is the first whose key equals an earlier one *)
+Theorem C16_duplicate_key_refused_first : forall w1 pre w1j k w2j w3j x w4j post w2,
+  let ms := pre ++ (w1j, k, w2j, w3j, x, w4j) :: post in
+  Json.Grammar.all_blank w1 = true -> Json.Grammar.wf (Json.Grammar.JObj ms) = true ->
+  Json.Grammar.all_blank w2 = true -> LoaderProofs.no_exponent (Json.Grammar.JObj ms) = true ->
+  LoaderProofs.keys_fresh [] (map LoaderProofs.key_of pre) = true ->
+  forallb (fun m => LoaderProofs.distinct_keys (LoaderProofs.mem_value m)) pre = true ->
+  existsb (fun s => Loader.beq s (Loader.unquote k)) (map LoaderProofs.key_of pre) = true ->
+  Loader.load (w1 ++ Json.Grammar.render (Json.Grammar.JObj ms) ++ w2) =
+  Loader.LError 402%N (LoaderProofs.len w1 + 1 +
+                     LoaderProofs.len (flat_map (fun m => Json.GrammarProofs.rmem m ++ [x2c]) pre) +
+                     LoaderProofs.len w1j)%N.
+Proof. exact LoaderProofs.duplicate_key_refused_first. Qed.
+Print Assumptions C16_duplicate_key_refused_first.
+
+(* no duplicate key anywhere  <->  [dup_pos] finds nothing *)
+Theorem C16_distinct_keys_iff_no_duplicate : forall v p,
+  LoaderProofs.dup_pos p v = None <-> LoaderProofs.distinct_keys v = true.
+Proof.
+  intros v p. split; [apply LoaderProofs.dup_none_distinct|apply LoaderProofs.distinct_dup_none].
+Qed.
+Print Assumptions C16_distinct_keys_iff_no_duplicate.
+
+(* rules as written: same names, same values, same order, nothing dropped *)
+Theorem C16_rules_in_written_order : forall es m,
+  LoaderProofs.add_all es [] = Loader.Ok m -> Forall LoaderProofs.written_entry es ->
+  m = es /\ Loader.written_rules m m = map LoaderProofs.name_and_value es.
+Proof. exact LoaderProofs.rules_in_written_order. Qed.
+Print Assumptions C16_rules_in_written_order.
+
+Theorem C16_rule_duplicate_refused : forall e m,
+  (Loader.base_add e m = Loader.Fail (Loader.FErr 501%N) <-> exists e', In e' m /\ Loader.ce_t e' = Loader.ce_t e) /\
+  (Loader.base_add e m = Loader.Ok (m ++ [e]) <-> ~ exists e', In e' m /\ Loader.ce_t e' = Loader.ce_t e) /\
+  (forall f, Loader.base_add e m = Loader.Fail f -> f = Loader.FErr 501%N).
+Proof. exact LoaderProofs.base_add_fails_iff_present. Qed.
+Print Assumptions C16_rule_duplicate_refused.
+
+(* the same through [annot_of]: the a_rules of a node whose constraints were added one by one *)
+Theorem C16_rules_in_written_order_annot : forall (l : list (Loader.ctype * Loader.cval * Loader.rval)) d,
+  LoaderProofs.add_all (map (fun x => let '(t, v, w) := x in Loader.mkce t v (Some w)) l) [] = Loader.Ok (Loader.nd_cs d) ->
+  (forall t v w, In (t, v, w) l -> t <> Loader.CTypesList /\ t <> Loader.COr) ->
+  Loader.a_rules (Loader.annot_of d) = map (fun x => let '(t, _, w) := x in (Loader.ctype_name t, w)) l.
+Proof. exact LoaderProofs.rules_in_written_order_annot. Qed.
+Print Assumptions C16_rules_in_written_order_annot.
+
+(* successive additions go through exactly when the rule types are pairwise distinct *)
+Theorem C16_rules_added_iff_distinct : forall es,
+  (exists m, LoaderProofs.add_all es [] = Loader.Ok m) <-> NoDup (map Loader.ce_t es).
+Proof. exact LoaderProofs.add_all_ok_iff_distinct. Qed.
+Print Assumptions C16_rules_added_iff_distinct.
+
+(* what [distinct_keys] says of an object: its keys, as the loader stores them, are pairwise different,
+   and so it is in every member value *)
+Theorem C16_distinct_keys_obj : forall ms,
+  LoaderProofs.distinct_keys (Json.Grammar.JObj ms) = true <->
+  NoDup (map LoaderProofs.key_of ms) /\ forall m, In m ms -> LoaderProofs.distinct_keys (LoaderProofs.mem_value m) = true.
+Proof. exact LoaderProofs.distinct_keys_obj. Qed.
+Print Assumptions C16_distinct_keys_obj.
+
+(* a 3-level tree with every kind of layout:
+     LF SP { LF "a" SP : TAB [ SP 1 CR LF , LF { "k" : SP "s\n" , SP "z" LF : null TAB } , -0.5 SP ] LF ,
+             SP "b" : { SP } , LF "c" : SP [ LF ] CR LF } TAB LF
+   it meets the hypotheses of C16_load_mirrors_plain_json, and the model computes the mirror image *)
+Example C16_loader_three_levels :
+  let sp := [x20] in let tab := [x09] in let nl := [x0a] in let crlf := [x0d; x0a] in
+  let key c := [x22; c; x22] in
+  let tok1 := Json.Grammar.JTok [x31] in
+  let tokS := Json.Grammar.JTok [x22; x73; x5c; x6e; x22] in
+  let tokNull := Json.Grammar.JTok [x6e; x75; x6c; x6c] in
+  let tokNeg := Json.Grammar.JTok [x2d; x30; x2e; x35] in
+  let inner := Json.Grammar.JObj [ ([], key x6b, [], sp, tokS, []); (sp, key x7a, nl, [], tokNull, tab) ] in
+  let arr := Json.Grammar.JArr [ (sp, tok1, crlf); (nl, inner, []); ([], tokNeg, sp) ] in
+  let v := Json.Grammar.JObj [ (nl, key x61, sp, tab, arr, nl);
+                               (sp, key x62, [], [], Json.Grammar.JObj0 sp, []);
+                               (nl, key x63, [], sp, Json.Grammar.JArr0 nl, crlf) ] in
+  let w1 := nl ++ sp in let w2 := tab ++ nl in
+  Json.Grammar.all_blank w1 = true /\ Json.Grammar.wf v = true /\ Json.Grammar.all_blank w2 = true /\
+  SchemaProofs.plain (w1 ++ Json.Grammar.render v ++ w2) = true /\
+  LoaderProofs.no_exponent v = true /\ LoaderProofs.distinct_keys v = true /\
+  Loader.load (w1 ++ Json.Grammar.render v ++ w2) = Loader.LTree (Some (LoaderProofs.mirror v)) /\
+  LoaderProofs.mirror v =
+    Loader.NObj
+      [ ([x61], false,
+         Loader.NArr [ Loader.NLit [x31] LoaderProofs.no_annot;
+                       Loader.NObj [ ([x6b], false, Loader.NLit [x22; x73; x5c; x6e; x22] LoaderProofs.no_annot);
+                                     ([x7a], false, Loader.NLit [x6e; x75; x6c; x6c] LoaderProofs.no_annot) ]
+                                   LoaderProofs.no_annot;
+                       Loader.NLit [x2d; x30; x2e; x35] LoaderProofs.no_annot ] LoaderProofs.no_annot);
+        ([x62], false, Loader.NObj [] LoaderProofs.no_annot);
+        ([x63], false, Loader.NArr [] LoaderProofs.no_annot) ] LoaderProofs.no_annot /\
+  LoaderProofs.ast_preorder (LoaderProofs.ast_mirror [] v) =
+    [ ([], []); ([x61], []); ([], [x31]); ([], []); ([x6b], [x22; x73; x5c; x6e; x22]);
+      ([x7a], [x6e; x75; x6c; x6c]); ([], [x2d; x30; x2e; x35]); ([x62], []); ([x63], []) ] /\
+  LoaderProofs.count_values v = 9.
+Proof. vm_compute. repeat split. Qed.
